@@ -10,7 +10,7 @@ import (
 //
 // The document is written chunk by chunk to one parser whose visitor fails at event failAt
 // (or the document itself is malformed); after the first failing Write the caller goes on:
-// an empty Write, then the remaining chunks.  No event of that document may reach the
+// an empty Write, then the remaining chunks, finally (cborl, ubjson) a Parse.  No event of that document may reach the
 // visitor any more, every further Write must report an error, and nothing may hang.
 func (f *format) wafterRun(failAt int, chunks [][]byte) string {
 	res := "A ok"
@@ -19,8 +19,23 @@ func (f *format) wafterRun(failAt int, chunks [][]byte) string {
 		p := f.newParser(refRecorder{rec})
 		failed := false
 		callsAtFailure := 0
+		// for cborl / ubjson (whose Parse continues the document: feed + end of input) half of the
+		// cases hand the first piece to Parse instead of Write
+		h := 0
+		for _, c := range chunks {
+			h += len(c)
+			for _, b := range c {
+				h = h*31 + int(b)
+			}
+		}
+		viaParse := f.name != "json" && len(chunks) >= 2 && (h>>3)%2 == 1
 		for i := 0; i < len(chunks); i++ {
-			_, err := p.Write(chunks[i])
+			var err error
+			if i == 0 && viaParse {
+				err = p.Parse(chunks[0])
+			} else {
+				_, err = p.Write(chunks[i])
+			}
 			if failed {
 				if err == nil {
 					res = "A error-forgotten"
@@ -35,6 +50,13 @@ func (f *format) wafterRun(failAt int, chunks [][]byte) string {
 					res = "A error-forgotten"
 					return
 				}
+			}
+		}
+		if failed && f.name != "json" {
+			// ... and Parse must not revive it either
+			if err := p.Parse(chunks[len(chunks)-1]); err == nil {
+				res = "A error-forgotten-by-Parse"
+				return
 			}
 		}
 		if failed && rec.calls != callsAtFailure {
